@@ -142,6 +142,13 @@ Check (C09_seek_by_skipping : forall msg nq an ns ar qs rs e1 e2, parsed msg nq 
   lenN qs = nq -> sec_start (lin nq an ns ar) s <= lenN rs ->
   exists r', rd_seek msg s r = (r', Ok OUnit) /\
              RState msg nq an ns ar qs rs e2 r' (nq + sec_start (lin nq an ns ar) s) (N.max hw (nq + sec_start (lin nq an ns ar) s))).
+Check (C09_seek_by_skipping_fails : forall msg nq an ns ar qs rs e1 e2, parsed msg nq an ns ar qs rs e1 e2 ->
+  forall r hw s, RState msg nq an ns ar qs rs e2 r 0 hw -> s < 3 ->
+  known (lin nq an ns ar) (mkA 0 hw false None) s = false ->
+  (lenN qs < nq -> question_at msg e2 = None) ->
+  (lenN qs = nq -> match record_at msg e2 with Some it => a_data_ok it = false | None => True end) ->
+  lenN qs < nq \/ (lenN qs = nq /\ lenN rs < sec_start (lin nq an ns ar) s) ->
+  exists r' e, rd_seek msg s r = (r', Err e) /\ r_done r' = true).
 Check (C09_seek_refused : forall msg nq an ns ar qs rs e1 e2, parsed msg nq an ns ar qs rs e1 e2 ->
   forall r idx hw s, RState msg nq an ns ar qs rs e2 r idx hw -> s < 3 ->
   known (lin nq an ns ar) (mkA idx hw false None) s = false ->
@@ -164,4 +171,4 @@ Check (C09_example_run : exists qs rs e1 e2 h c,
     within 1 1 0 0 qs rs [TQuestion; TRecord; TSeek 0; TRecord] 0 0 /\
     exists r', RState example_msg 1 1 0 0 qs rs e2 r' 2 2 /\
                prescribed example_msg 1 1 0 0 qs rs r' [TQuestion; TRecord; TSeek 0; TRecord] r0 0 0).
-Print Assumptions C09_stays_exhausted. Print Assumptions C09_error_latches. Print Assumptions C09_tracker_refines. Print Assumptions C09_tracker_init. Print Assumptions C09_counts. Print Assumptions C09_seek. Print Assumptions C09_record_section. Print Assumptions C09_tracker_example. Print Assumptions C09_question_parse_is_spec. Print Assumptions C09_record_parse_is_spec. Print Assumptions C09_reader_refines. Print Assumptions C09_complete_is_within. Print Assumptions C09_unparsable_question_fails. Print Assumptions C09_unparsable_record_fails. Print Assumptions C09_question_flavours. Print Assumptions C09_owned_question_too_long. Print Assumptions C09_record_header_flavours. Print Assumptions C09_record_data_flavours. Print Assumptions C09_counts_reader. Print Assumptions C09_seek_by_skipping. Print Assumptions C09_seek_refused. Print Assumptions C09_reader_start. Print Assumptions C09_linear_pass_parses. Print Assumptions C09_example_run.
+Print Assumptions C09_stays_exhausted. Print Assumptions C09_error_latches. Print Assumptions C09_tracker_refines. Print Assumptions C09_tracker_init. Print Assumptions C09_counts. Print Assumptions C09_seek. Print Assumptions C09_record_section. Print Assumptions C09_tracker_example. Print Assumptions C09_question_parse_is_spec. Print Assumptions C09_record_parse_is_spec. Print Assumptions C09_reader_refines. Print Assumptions C09_complete_is_within. Print Assumptions C09_unparsable_question_fails. Print Assumptions C09_unparsable_record_fails. Print Assumptions C09_question_flavours. Print Assumptions C09_owned_question_too_long. Print Assumptions C09_record_header_flavours. Print Assumptions C09_record_data_flavours. Print Assumptions C09_counts_reader. Print Assumptions C09_seek_by_skipping. Print Assumptions C09_seek_by_skipping_fails. Print Assumptions C09_seek_refused. Print Assumptions C09_reader_start. Print Assumptions C09_linear_pass_parses. Print Assumptions C09_example_run.
